@@ -456,7 +456,7 @@ func renderText(r *rand.Rand, m map[string]any, asJSON bool) string {
 func init() {
 	register(&Prop{
 		ID:   "C01",
-		Rule: "kinds: round (AsMap(FromMap m) for generated generic values incl. nil/empties/time.Time/map[any]any/typed slices at any position), dom (the DOM FromMap built, read node by node), asmap (builder-made documents), text (hand-listed YAML-only features + rendered/truncated/corrupted YAML and JSON through FromReader vs control decode). Extra: Serialize byte-determinism x8/x20 and EVERY prefix length of writer and reader failure (yaml+json). Non-trivial: value has a null or empty collection inside a list; text decodes to a non-empty map. Distinct by Gallina term / text. After every round trip a consumer writes into the exported value (also into its empty mappings and lists) and the document is exported again.",
+		Rule: "kinds: round (AsMap(FromMap m) for generated generic values incl. nil/empties/time.Time/map[any]any/typed slices at any position), dom (the DOM FromMap built, read node by node), asmap (builder-made documents), text (hand-listed YAML-only features + rendered/truncated/corrupted YAML and JSON through FromReader vs control decode). Extra: Serialize byte-determinism x8/x20 and EVERY prefix length of writer and reader failure (yaml+json). Non-trivial: value has a null or empty collection inside a list; text decodes to a non-empty map. Distinct by Gallina term / text. After every round trip a consumer writes into the exported value (also into its empty mappings and lists) and the document is exported again. Member names that merely look like index suffixes (tags[], [], x[y], k[-1]).",
 		Corpus: func() []Case {
 			cs := []Case{
 				c01Round(map[string]any{"a": []any{1, nil, 3}}, "round"), // pinned-tree defect
